@@ -34,7 +34,7 @@ def lean_error_table(mx, rows, bad):
     return "\n".join(out)
 
 
-def invalid_ops(rng, h, mode, ch, F):
+def invalid_ops(rng, h, mode, ch, F, at_start=False):
     """(script line, expected failure value, kind) for a handle in `mode`"""
     ty = rng.choice(R.TYS)
     ops = []
@@ -53,6 +53,12 @@ def invalid_ops(rng, h, mode, ch, F):
             ops.append(("r %s %s i %d" % (h, ty, ch + 1), "0", "item count not divisible by channels"))
         if mode != "r":
             ops.append((S.w_line(h, ty, "i", ch + 1, S.rand_values(rng, ty, ch + 1, "unit")), "0", "item count not divisible by channels"))
+    if ch > 1 and mode != "r":
+        # sf_write_raw: the byte count must be a whole number of frames (at least a multiple of the channel count)
+        ops.append(("wraw %s %d %s" % (h, ch + 1, "00" * (ch + 1)), "0", "raw byte count not divisible by channels"))
+    if ch > 1 and mode == "r" and at_start:
+        # sf_read_raw tests end-of-data before alignment, so this class is only inserted while data remains
+        ops.append(("rraw %s %d" % (h, ch + 1), "0", "raw byte count not divisible by channels"))
     if mode != "w":
         ops.append(("r %s %s %s -%d" % (h, ty, rng.choice("if"), ch * (1 + rng.randrange(3))), "0", "negative count"))
     if mode != "r":
@@ -99,14 +105,23 @@ def build(rng, f, ch, n):
         base.append("info h1")
     base += ["close h1", "dump s0"]
     twin, marks = [], {}
+    seen_read = [False]
     F_guess = n + 1000000      # certainly past the end whatever the block padding
     for line in base:
         t = line.split()
         twin.append(line)
+        if t[0] in ("r", "seek"):
+            seen_read[0] = True
         h = t[1] if len(t) > 1 and t[1].startswith("h") else None
         if t[0] in ("w", "r", "seek", "info") and h and rng.random() < 0.6:
             mode = "w" if h == "h0" else "r"
-            for (op, fail, kind) in rng.sample(invalid_ops(rng, h, mode, ch, F_guess), 2):
+            at_start = mode == "r" and n > 0 and not seen_read[0] and t[0] == "info"
+            cands = invalid_ops(rng, h, mode, ch, F_guess, at_start)
+            picks = rng.sample(cands, 2)
+            raw = [c for c in cands if c[2].startswith("raw byte count")]
+            if raw and rng.random() < 0.7 and raw[0] not in picks:
+                picks[0] = raw[0]
+            for (op, fail, kind) in picks:
                 marks[len(twin)] = (fail, kind)
                 twin.append(op)
                 twin.append("strerror %s" % h)
